@@ -315,6 +315,12 @@ def gen(rng, tier):
     extra += [D.gen_clear_history(rng) for i in range(30 if tier == 'quick' else 500)]
     for c in extra:
         c['kind'] = 'events'
+    if tier != 'quick':
+        # thresholds beyond 64 facts (thorough tier only: the printed read-backs are large)
+        big = [D.gen_big_history(rng, sizes=[100, 127, 128, 129, 200, 255, 256, 257]) for i in range(40)]
+        for c in big:
+            c['kind'] = 'events'
+        extra += big
     extra += [D.gen_dbprog_grown(rng, loopy=0.7) for i in range(30 if tier == 'quick' else 500)]
     return D.spread(cases, extra)
 
